@@ -1,5 +1,6 @@
 """Native scenarios for transfer (C04/C11): two directories sharing a file, an upload fault on the shared file.
 Run against the tree in PYVC_REPO_SRC (default /repo/src).  Prints a JSON report; exit 0 always."""
+import logging; logging.disable(logging.CRITICAL)
 import json
 import os
 import sys
